@@ -375,8 +375,8 @@ def Marked (T : Table) (named : List Bool) (fn : Func) (a : Nat) : Flag → Prop
   | .borrowed => fn.isImport = true ∧ named.getD a false = true ∧ a ∈ fn.paramLive
   | .owned => named.getD a false = true ∧
       ((fn.isImport = false ∧ a ∈ fn.paramLive) ∨ a ∈ fn.resultLive)
-  | .error => ∃ r ok e, fn.result = some (.id r) ∧ T[r]? = some (.result ok (some (.id e))) ∧
-      resolveTypeDefinitionId T (e + 1) e = some a
+  | .error => ∃ r rd ok e, fn.result = some (.id r) ∧ resolveTypeDefinitionId T (r + 1) r = some rd ∧
+      T[rd]? = some (.result ok (some (.id e))) ∧ resolveTypeDefinitionId T (e + 1) e = some a
   | _ => False
 
 theorem step_get {infos infos' : List TypeInfo} {g : TypeInfo → TypeInfo} {fl : Flag} {C : Nat → Prop}
@@ -457,6 +457,9 @@ theorem typeInfoFunc_spec {T : Table} {named : List Bool} {infos infos' : List T
   · rename_i r hres
     split at h
     · simp at h
+    rename_i rd hrd
+    split at h
+    · simp at h
     · rename_i ok e hT
       split at h
       · simp at h
@@ -466,7 +469,7 @@ theorem typeInfoFunc_spec {T : Table} {named : List Bool} {infos infos' : List T
         intro a f ha
         have := step_get (fl := .error) (C := fun a => a = d) setError_get hg3 a f
         rw [this, Bool.or_eq_true, hbase a f ha]
-        cases f <;> simp [Marked, hl2, ha, hres, hT] <;> grind
+        cases f <;> simp [Marked, hl2, ha, hres, hrd, hT] <;> grind
     · rename_i val hcontra hne
       simp only [Option.some.injEq] at h
       subst h
@@ -474,8 +477,9 @@ theorem typeInfoFunc_spec {T : Table} {named : List Bool} {infos infos' : List T
       intro a f ha
       rw [hbase a f ha]
       have hno : ¬ Marked T named fn a .error := by
-        rintro ⟨r', ok, e, h1, h2, _⟩
+        rintro ⟨r', rd', ok, e, h1, h1', h2, _⟩
         rw [hres] at h1; cases h1
+        rw [hrd] at h1'; cases h1'
         rw [hne] at h2; cases h2
         exact hcontra ok e rfl
       cases f <;> simp [hno]
@@ -486,7 +490,7 @@ theorem typeInfoFunc_spec {T : Table} {named : List Bool} {infos infos' : List T
     intro a f ha
     rw [hbase a f ha]
     have hno : ¬ Marked T named fn a .error := by
-      rintro ⟨r', ok, e, h1, _, _⟩
+      rintro ⟨r', _, ok, e, h1, _, _, _⟩
       exact hcontra r' h1
     cases f <;> simp [hno]
 
